@@ -5,6 +5,7 @@ CONSTANTS Names, Sizes, Extras, MaxEntries,
 VARIABLES a, d      \* archive (sequence of entries), descriptor length used by the writer (0 or 16)
 
 NamesQuick == {"ct", "rels", "docprops", "word", "xl", "ppt", "manifest", "android", "mimetype", "nm_Word", "u1", "u12", "u40"}
+NamesBig == {"ct", "docprops", "word", "u12"}     \* with Sizes = {5, 70000}: bodies larger than any plausible look-ahead window
 NamesAll == {"ct", "rels", "docprops", "customxml", "trash", "word", "xl", "ppt", "manifest", "android", "dex", "mimetype",
              "nm_word", "nm_Word", "nm_xl", "nm_manifest", "nm_mimetypes", "u1", "u12", "u40", "u200"}
 
